@@ -37,6 +37,14 @@ func vfExecMore7(f []string, op string) (string, bool) {
 		raw, _ := vfExact(vfUnhex(f[1]))
 		n := uint32(len(raw))
 		return fmt.Sprintf("%s => %s%s", op, vfSafeDet(magic.JSON, raw, 0)[:1], vfSafeDet(magic.JSON, raw, n)[:1]), true
+	case "jsubcut": // jsubcut hex lim decEnd : as jsub, the deciding member ends at decEnd
+		data := vfUnhex(f[1])
+		var lim uint32
+		fmt.Sscan(f[2], &lim)
+		SetLimit(lim)
+		in, _ := vfExact(data)
+		m := Detect(in)
+		return fmt.Sprintf("%s => %s", op, vfChain(m)), true
 	case "jsub": // jsub hex lim : Detect leaf for JSON sub-typing
 		data := vfUnhex(f[1])
 		var lim uint32
@@ -198,10 +206,20 @@ func (g *vfGen) genC08() {
 			}
 		}
 	}
-	// deep nesting up to and around the cap
-	for _, depth := range []int{10, 100, 4095, 4096, 4097} {
+	// deep nesting up to and around the cap, arrays, objects and mixed
+	for _, depth := range []int{10, 100, 2049, 4095, 4096, 4097} {
 		d := strings.Repeat("[", depth) + strings.Repeat("]", depth)
 		g.emit(vfOp("jany", []byte(d)))
+		if depth <= 4096 {
+			o := strings.Repeat(`{"k":`, depth-1) + "{}" + strings.Repeat("}", depth-1)
+			g.emit(vfOp("jany", []byte(o)))
+			if depth%2 == 0 {
+				m := strings.Repeat(`[{"k":`, depth/2) + "1" + strings.Repeat("}]", depth/2)
+				g.emit(vfOp("jany", []byte(m)))
+			}
+			g.emit(vfOp("walk", []byte(o), 0))
+			g.emit(vfOp("walk", []byte(o), len(o)/2))
+		}
 	}
 	// the witnesses of the nested-failure defect
 	for _, w := range []string{`[",abc"]`, `["]x"]`, `{"a":"}b"}`, `[[",", "]"]]`} {
@@ -289,13 +307,13 @@ func (g *vfGen) genC10() {
 	deciding := func() (string, string) {
 		switch g.rng.Intn(8) {
 		case 0, 1:
-			return fmt.Sprintf(`"type":%s"%s"%s`, g.jws(), geo[g.rng.Intn(len(geo))], g.jws()), "geo"
+			return fmt.Sprintf(`"type"%s:%s"%s"%s`, g.jws(), g.jws(), geo[g.rng.Intn(len(geo))], g.jws()), "geo"
 		case 2:
-			return `"log":{` + []string{`"version":"1.2"`, `"creator":{}`, `"entries":[]`, `"pages":[]`, `"Version":1`}[g.rng.Intn(5)] + `}`, "har"
+			return `"log"` + g.jws() + `:` + g.jws() + `{` + []string{`"version":"1.2"`, `"creator" : {}`, `"entries":[]`, `"pages":[]`, `"Version":1`}[g.rng.Intn(5)] + `}`, "har"
 		case 3:
-			return `"log":{"x":[1,2],"entries":[{"a":[1]}]}`, "har"
+			return `"log"` + g.jws() + `:{"x":[1,2],"entries"` + g.jws() + `:[{"a":[1]}]}`, "har"
 		case 4:
-			return `"asset":{"version":"` + []string{"1.0", "2.0", "3.0", "2"}[g.rng.Intn(4)] + `"}`, "gltf"
+			return `"asset"` + g.jws() + `:` + g.jws() + `{"version"` + g.jws() + `:` + g.jws() + `"` + []string{"1.0", "2.0", "3.0", "2"}[g.rng.Intn(4)] + `"}`, "gltf"
 		case 5:
 			return `"asset":{"generator":"g","copyright":[1],"version":"2.0"}`, "gltf"
 		case 6:
@@ -330,4 +348,41 @@ func (g *vfGen) genC10() {
 		}
 	}
 	g.emit(vfOp("jsub", []byte(`{"accessors":[1],"asset":{"version":"2.0"}}`), 0))
+	// truncated documents with exactly one deciding member: every limit from the end of
+	// that member's value onwards
+	only := []string{`"type":"Feature"`, `"type" : "MultiPolygon" `, `"log":{"version":"1.2"}`, `"log" : { "entries" : [] }`,
+		`"asset":{"version":"2.0"}`, `"asset" : {"generator":"x", "version" : "1.0" }`}
+	for i := 0; i < g.pick(120, 3000); i++ {
+		var before, after []string
+		for j := 0; j < g.rng.Intn(4); j++ {
+			before = append(before, g.jws()+neutralSib(g)+g.jws())
+		}
+		for j := 0; j < 1+g.rng.Intn(4); j++ {
+			after = append(after, g.jws()+neutralSib(g)+g.jws())
+		}
+		dec := only[g.rng.Intn(len(only))]
+		head := g.jws() + "{" + strings.Join(append(before, g.jws()+dec), ",")
+		doc := head + "," + strings.Join(after, ",") + "}"
+		for l := len(head); l <= len(doc)+1; l++ {
+			if g.thorough || l < len(head)+6 || g.rng.Intn(5) == 0 {
+				g.emit(vfOp("jsubcut", []byte(doc), l, len(head)))
+			}
+		}
+	}
+}
+
+func neutralSib(g *vfGen) string {
+	switch g.rng.Intn(6) {
+	case 0:
+		return `"accessors":[1,2]`
+	case 1:
+		return `"list":[]`
+	case 2:
+		return `"nested":{"a":{"b":[{"c":1}]}}`
+	case 3:
+		return `"n":` + g.jnumber()
+	case 4:
+		return `"s":"x, y] z}"`
+	}
+	return `"k` + fmt.Sprint(g.rng.Intn(100)) + `":[[1],[2,[3]]]`
 }
